@@ -41,11 +41,43 @@ static void *__va_arg_fp(__va_elem *ap, int sz, int align) {
   return r;
 }
 
+// A struct or union that is passed in registers arrives in one or two
+// eightbytes, each in a general-purpose or a vector register (bit 0 / 1
+// of `sse`: the first / second eightbyte is in a vector register). If
+// the registers that are left cannot hold all of it, all of it is in
+// memory. The eightbytes are gathered in `buf`.
+static void *__va_arg_struct(__va_elem *ap, int sz, int align, int sse, void *buf) {
+  int n = (sz + 7) / 8;
+  int nfp = (sse & 1) + (n == 2 && (sse & 2) ? 1 : 0);
+  int ngp = n - nfp;
+
+  if (ap->gp_offset + ngp * 8 > 48 || ap->fp_offset + nfp * 16 > 176)
+    return __va_arg_mem(ap, sz, align);
+
+  for (int i = 0; i < n; i++) {
+    char *src;
+    if (sse >> i & 1) {
+      src = (char *)ap->reg_save_area + ap->fp_offset;
+      ap->fp_offset += 16;
+    } else {
+      src = (char *)ap->reg_save_area + ap->gp_offset;
+      ap->gp_offset += 8;
+    }
+
+    for (int j = 0; j < 8 && i * 8 + j < sz; j++)
+      ((char *)buf)[i * 8 + j] = src[j];
+  }
+  return buf;
+}
+
 #define va_arg(ap, ty)                                                  \
   ({                                                                    \
     int klass = __builtin_reg_class(ty);                                \
+    ty __va_buf;                                                        \
     *(ty *)(klass == 0 ? __va_arg_gp(ap, sizeof(ty), _Alignof(ty)) :    \
             klass == 1 ? __va_arg_fp(ap, sizeof(ty), _Alignof(ty)) :    \
+            klass >= 4 ? __va_arg_struct(ap, sizeof(ty), _Alignof(ty),  \
+                                         klass - 4, &__va_buf) :        \
             __va_arg_mem(ap, sizeof(ty), _Alignof(ty)));                \
   })
 
